@@ -25,6 +25,13 @@ def _is_foreign(model, f, it):
             if isinstance(st, ast.With) and isinstance(v, ast.Call) and \
                     model.ext_name(f.module, v.func) == 'open':
                 return 'file ' + it.id
+        # a local holding the (materialised) lines of another object
+        binds = [v for (_s, v) in assignments_to(f.node, it.id)]
+        if len(binds) == 1 and binds[0] is not None and \
+                not isinstance(binds[0], ast.Name):
+            r = _is_foreign(model, f, binds[0])
+            if r is not None:
+                return r
         return None
     for c in walk_own(it):
         if isinstance(c, ast.Call) and isinstance(c.func, ast.Attribute) and \
@@ -34,7 +41,11 @@ def _is_foreign(model, f, it):
 
 
 def _endswith_nl_guard(test, target_dump):
-    """test is `not <target>.endswith(b'\\n')`"""
+    """test is `not <target>.endswith(b'\\n')`, possibly preceded by
+    non-emptiness conjuncts (`seq and not seq[-1].endswith(..)`)"""
+    if isinstance(test, ast.BoolOp) and isinstance(test.op, ast.And) and \
+            all(isinstance(v, ast.Name) for v in test.values[:-1]):
+        test = test.values[-1]
     if isinstance(test, ast.UnaryOp) and isinstance(test.op, ast.Not):
         c = test.operand
         if isinstance(c, ast.Call) and isinstance(c.func, ast.Attribute) and \
@@ -131,8 +142,14 @@ def check_extend_sites(model, f, res, rule='R-C14-splice'):
             ast.Name(L, ast.Load()),
             ast.UnaryOp(ast.USub(), ast.Constant(1)), ast.Load()))
         guarded = False
-        if rest and isinstance(rest[0], ast.If) and \
-                _endswith_nl_guard(rest[0].test, target):
+        targets = [target]
+        if isinstance(st.value.args[0], ast.Name):
+            # the last line of the spliced sequence itself
+            targets.append(ast.dump(ast.Subscript(
+                ast.Name(st.value.args[0].id, ast.Load()),
+                ast.UnaryOp(ast.USub(), ast.Constant(1)), ast.Load())))
+        if rest and isinstance(rest[0], ast.If) and any(
+                _endswith_nl_guard(rest[0].test, tg) for tg in targets):
             for s in rest[0].body:
                 for c in walk_own(s):
                     if isinstance(c, ast.Call) and \
